@@ -94,6 +94,9 @@ def gen(rng, tier):
     yield from _gen0(rng, tier)
     yield from defaults_grid(rng)
     yield from reinit_histories(rng, 400 if tier == 'thorough' else 60)
+    # well-formed and malformed descriptions whose highest area ends at 2^32 (end addresses are not representable in 32 bits)
+    yield from at_top(_gen0, rng, tier, 2000 if tier == 'thorough' else 400)
+    yield from at_top(lambda r, t: defaults_grid(r), rng, tier, 200)
 
 def nontrivial(c):
     return True
